@@ -38,6 +38,10 @@ THEOREMS = [
     "Mpc.C09_prune_preserves",
     "Mpc.C09_shortCircuit_preserves",
     "Mpc.C09_compile_preserves_partial",
+    "Mpc.C09_wf_checkers_sound",
+    "Mpc.C09_pipeline_preserves",
+    "Mpc.sol_unique",
+    "Mpc.Graph.gwfCheck_sound",
 ]
 
 
@@ -141,7 +145,7 @@ def run(ctx):
                     "program": nw.get("src"), "input": nw.get("x"), "compute_yao": nw.get("out_yao"),
                     "compute_gmw": nw.get("out_gmw"),
                     "lean_circuits_are_todays_compiler_output": baked == [nw.get("yao"), nw.get("gmw")]}
-            ctx.correspond("Compute/AssignLevels/level sorts: Lean model = real code (seed %d)" % s, ops, out,
+            ctx.correspond("pass models (ConstPropagate/ShortCircuitXORZero/Prune/Compile) + Compute/AssignLevels/level sorts: Lean model = real code (seed %d)" % s, ops, out,
                            canon=strip_chk)
             for tag, verdict, info in pair_results(ctx, ops, out, meta, s):
                 kind = tag.split("|")[-1]
@@ -213,13 +217,22 @@ def run(ctx):
         "an output wire that no gate drives reads as 0 (Compute: make([]byte, NumWires)); modelled so in Lean "
         "(initStore) and in the checker (outAbs)",
         "circuits larger than the tier's size limits are skipped (counted in coverage.counters)",
+        "pass models (Model/Passes.lean): wire fan-out counters are unbounded naturals (Go: 29 bits, panics above); "
+        "builder graphs above 12000 gates are not dumped for the pass-model tie",
+        "Compile: the breadth-first numbering is validated per run by the model function compileChecked "
+        "(C09_compile_preserves_partial), not proved complete/injective in general",
     ]
     ctx.trusted = list(vlib.DEFAULT_TRUSTED) + [
         "untrusted: the witness search (Go, hash-consing) - a wrong witness can only make the checker answer false",
     ]
     return ctx.finish(
         "Theorem C09_checker_sound: checkRefines C C' w w' = true implies C'.compute x = C.compute x for every input x "
-        "(plus both circuits well-formed). The checker is run natively on circuits produced by the real compiler: for "
+        "(plus both circuits well-formed). Pass models: C09_constPropagate_preserves, C09_shortCircuit_preserves, "
+        "C09_prune_preserves, C09_compile_preserves_partial and C09_pipeline_preserves are theorems about direct Lean models "
+        "of the four passes over the builder gate/wire graph (values, fan-out counters, output lists, input-gate pointers); "
+        "on every run each model is applied to the dumped real pre-pass graph and must reproduce the real post-pass graph / "
+        "compiled circuit exactly, and the proved well-formedness checkers must accept every real pass input. "
+        "The checker is run natively on circuits produced by the real compiler: for "
         "every program and target, raw (no pass) -> ConstPropagate -> +ShortCircuitXORZero (= prune off) -> +Prune "
         "(= prune on), and prune off -> on for each multiplier threshold; a validated pair is equivalent for ALL inputs. "
         "C09_levels / C09_gmw_schedule: Compile's (level, AND-first) sort and the GMW (AND-depth, non-AND-first) schedule "
